@@ -53,6 +53,7 @@ func runC05(c *core.Ctx, r *core.Reporter) {
 	c05norm(c, r)
 	c05conv(c, r)
 	c05ovf(c, r)
+	c05int64(c, r)
 }
 
 // flowsToComparison: the value, possibly after further arithmetic, is an operand of a comparison.
